@@ -83,9 +83,25 @@ func runC03(r *Run) {
 					}
 				}
 			}
-			if r.Rng.Intn(12) == 0 { // select with a column list (known finding D15)
+			if r.Rng.Intn(6) == 0 { // select with a column list: a random subset of the columns, sometimes with _uuid
 				t := ts.Spec.Tables[r.Rng.Intn(len(ts.Spec.Tables))]
-				txn.Ops = append(txn.Ops, OperationJ{Op: "select", Table: t.Name, Columns: []string{"name"}})
+				var cols []string
+				for _, c := range t.Cols {
+					if r.Rng.Intn(3) == 0 {
+						cols = append(cols, c.Name)
+					}
+				}
+				if r.Rng.Intn(3) == 0 {
+					cols = append(cols, "_uuid")
+				}
+				if len(cols) == 0 {
+					cols = []string{"name"}
+				}
+				r.Rng.Shuffle(len(cols), func(i, j int) { cols[i], cols[j] = cols[j], cols[i] })
+				op := OperationJ{Op: "select", Table: t.Name, Columns: cols}
+				pos := r.Rng.Intn(len(txn.Ops) + 1)
+				txn.Ops = append(txn.Ops[:pos], append([]OperationJ{op}, txn.Ops[pos:]...)...)
+				r.Count("select-with-columns")
 			}
 			return &txn
 		})
@@ -97,7 +113,7 @@ type c03Witness struct {
 	txns []TxnJ
 }
 
-// c03Witnesses: minimal histories for the open known finding D15 and the repaired D16.
+// c03Witnesses: minimal histories for the repaired D15 and D16.
 func c03Witnesses() []c03Witness {
 	t := TableSpec{Name: "T0", IsRoot: true, Cols: []ColSpec{
 		{Name: "name", Type: ColType{Kind: "atom", Key: "string", Min: 1, Max: 1}},
@@ -108,7 +124,7 @@ func c03Witnesses() []c03Witness {
 		return OperationJ{Op: "insert", Table: "T0", UUID: mkUUID(n), Row: Row{"name": VA(AS(name)), "n": VA(AI(int64(n)))}}
 	}
 	return []c03Witness{
-		// D15: select with columns returns every column
+		// D15: select with columns returned every column
 		{ts, []TxnJ{{Ops: []OperationJ{ins(1, "a"), {Op: "select", Table: "T0", Columns: []string{"name"}}}}}},
 		// D16: rows {x, a} selected, wait until == [{name: a}] succeeds although the row sets differ
 		{ts, []TxnJ{{Ops: []OperationJ{ins(1, "x"), ins(2, "a"),
@@ -182,12 +198,6 @@ func c03History(r *Run, h int, ts TxnSchema, next func(sh *shadow) *TxnJ) {
 			}
 			sp := spec[ti]
 			known := ""
-			for _, o := range txns[ti].Ops {
-				if o.Op == "select" && len(o.Columns) > 0 {
-					known = "select-ignores-columns"
-				}
-
-			}
 			if sp.Rejected {
 				r.Violation("rfc", csT, "accepted", "rejected by the reference interpreter", true, fmt.Sprintf("transaction %d: the database accepted a transaction the RFC reference rejects", ti), known)
 				if known == "" {
@@ -200,8 +210,26 @@ func c03History(r *Run, h int, ts TxnSchema, next func(sh *shadow) *TxnJ) {
 			for oi, res := range outs[ti].Results {
 				t := ts.Spec.Table(txns[ti].Ops[oi].Table)
 				var rows []string
+				named := txns[ti].Ops[oi].Columns
 				for _, row := range res.Rows {
 					u, fr := fullRowOfOvs(*t, row)
+					if txns[ti].Ops[oi].Op == "select" && len(named) > 0 {
+						// only the named columns may be present; a named column that is absent holds its default
+						isNamed := map[string]bool{}
+						for _, c := range named {
+							isNamed[c] = true
+						}
+						for c := range fr {
+							if !isNamed[c] {
+								delete(fr, c)
+							}
+						}
+						for c := range row {
+							if !isNamed[c] {
+								fr["unnamed:"+c] = row[c]
+							}
+						}
+					}
 					rows = append(rows, u+fr.Canon())
 				}
 				sort.Strings(rows)
